@@ -499,6 +499,9 @@ class LibMixin:
 
     # ---- array methods
     def m_astype(self, recv, node, st):
+        if isinstance(recv, Mat):
+            # an abstract matrix over the (mathematical) ring: a dtype cast keeps its value - machine number formats are not modelled
+            return recv
         kind = dtype_kind(node.args[0])
         if kind is None:
             kind = self.elem_kind(st, recv)
